@@ -142,7 +142,9 @@ impl<'tcx> Dumper<'tcx> {
                 ProjectionElem::Deref => "\"*\"".to_string(),
                 ProjectionElem::Field(f, fty) => {
                     let mut name = f.index().to_string();
+                    let mut owner_adt = String::new();
                     if let ty::Adt(def, _) = pty.ty.kind() {
+                        owner_adt = path_of(self.tcx, def.did());
                         let vidx = pty.variant_index.unwrap_or(rustc_abi::FIRST_VARIANT);
                         if def.is_enum() || def.is_struct() || def.is_union() {
                             if let Some(v) = def.variants().get(vidx) {
@@ -152,7 +154,11 @@ impl<'tcx> Dumper<'tcx> {
                             }
                         }
                     }
-                    Obj::new().n("f", f.index()).s("n", &name).s("ty", &ty_str(fty)).end()
+                    let mut fo = Obj::new().n("f", f.index()).s("n", &name).s("ty", &ty_str(fty));
+                    if !owner_adt.is_empty() {
+                        fo = fo.s("a", &owner_adt);
+                    }
+                    fo.end()
                 }
                 ProjectionElem::Index(l) => Obj::new().n("idx", l.index()).end(),
                 ProjectionElem::ConstantIndex { offset, min_length, from_end } => Obj::new()
